@@ -231,6 +231,56 @@ def constructors():
     return out
 
 
+def two_gateways(ctx: Ctx) -> None:
+    """All gateway ids: the SAME public-constructor call made twice, the first command sent through a gateway with one id, the second through a
+    gateway with another (a second stack in the process, a replaced dongle).  Each gateway must recognise its own echo / reply and ignore the
+    other's -- whatever the first send did to the first command object must not show in the second."""
+    from ramses_tx.command import Command as C  # noqa: PLC0415
+    from ramses_tx.packet import Packet  # noqa: PLC0415
+    from ramses_tx.protocol_fsm import IsInIdle, WantEcho  # noqa: PLC0415
+
+    A, B = "18:006402", "18:123456"
+    calls = [("from_attrs I 22F1", lambda: C.from_attrs(" I", "32:155617", "22F1", "000304")),
+             ("from_attrs I 1FC9 offer", lambda: C.put_bind(" I", HGI, ["30C9"], None)),
+             ("from_attrs W 1FC9 accept", lambda: C.put_bind(" W", HGI, ["30C9"], "34:021943")),
+             ("put_sensor_temp", lambda: C._from_attrs(" I", "30C9", "0007D0", addr0=HGI, addr2=HGI)),
+             ("get_zone_temp", lambda: C.get_zone_temp("01:145038", "03")),
+             ("set_zone_setpoint", lambda: C.set_zone_setpoint("01:145038", "03", 19.5))]
+
+    def want_echo(cmd, gw_id):
+        c = _Ctx()
+        c._protocol = type("P", (), {"hgi_id": gw_id})()
+        c._state = IsInIdle(c)
+        c._state.cmd_sent(cmd, is_retry=False)
+        c._state = WantEcho(c)
+        c.moves.clear()
+        return c
+
+    for name, build in calls:
+        try:
+            first, second = build(), build()
+        except Exception:  # noqa: BLE001, S112
+            continue
+        frame = str(first)
+        ctx.case(("two-gateways", name), True, "two-gateways")
+        want_echo(first, A)                      # the first command goes out through gateway A
+        for which, mine, other in (("second", B, A),):
+            c = want_echo(second, mine)
+            own = Packet.from_port(D, "000 " + frame.replace(HGI, mine))
+            foreign = Packet.from_port(D, "000 " + frame.replace(HGI, other))
+            c._state.pkt_rcvd(own)
+            took_own = bool(c.moves)
+            c2 = want_echo(build(), mine)
+            c2._state.pkt_rcvd(foreign)
+            took_foreign = bool(c2.moves) and HGI in build().tx_header      # (a request's header names its destination only: another gateway's identical request is the known finding)
+            case = {"constructor": name, "frame": frame, "first_sent_through": A, "then_sent_through": mine}
+            if not took_own:
+                ctx.violation("echo-not-recognised:same-call-through-another-gateway", f"{name}: the command built again and sent through gateway {mine} does not recognise its own echo "
+                              f"(the first one had been sent through {A})", case, "history")
+            if took_foreign:
+                ctx.violation("foreign-echo-taken:same-call-through-another-gateway", f"{name}: sent through gateway {mine}, the frame as transmitted by gateway {other} is taken for its echo", case, "history")
+
+
 def oracle(ctx: Ctx, per: int):
     from ramses_tx.command import Command  # noqa: PLC0415
     from ramses_tx.packet import Packet  # noqa: PLC0415
@@ -370,6 +420,7 @@ def run(ctx: Ctx) -> None:
     correspondence(ctx, built, 24 if thorough else 5)
     MISMATCH.clear()
     oracle(ctx, 3 if thorough else 1)
+    two_gateways(ctx)
     ctx.obligation("correspondence:matching-rule-vs-real-WantEcho/WantRply", not MISMATCH, "correspondence",
                    f"{len(MISMATCH)} decisions differ; first: {MISMATCH[0]}" if MISMATCH else "")
 
